@@ -134,7 +134,7 @@ func runC10(c *core.Ctx) {
 				input = au.units[0] // a single NAL unit handed over without any start code
 				c.Probe("raw-unit-without-start-code")
 			}
-			if c.Guard("codecs.H264Payloader.Payload", func() { payloads = pay.Payload(uint16(mtu), input) }) {
+			if c.Guard("codecs.H264Payloader.Payload", func() { payloads = pay.Payload(uint16(mtu), spare(t, input)) }) {
 				return
 			}
 			if !supersede {
